@@ -128,6 +128,7 @@ theorem keepE_fun (c : Conf) (p : Params) : keepE c p = keepMem c p :=
 theorem searchFiles_some (s : State) (p : Params) (hi : Inv s) (hv : ValidP p) (rem : List Entry)
     (hseek : seekRecord s.rot s.cur p.olderThan = some rem) :
     (filesRev s.rot s.cur).filter (keepMem s.conf p) = rem.filter (keepMem s.conf p) ∧ Desc rem ∧
+    (∀ x ∈ rem, x ∈ filesRev s.rot s.cur) ∧
     ∃ n, n ≤ rem.length ∧
       (searchFiles s p).1 = (rem.take n).filter (keepMem s.conf p) ∧
       (((searchFiles s p).1.length : Int) ≤ p.offset + p.limit) ∧
@@ -161,7 +162,8 @@ theorem searchFiles_some (s : State) (p : Params) (hi : Inv s) (hv : ValidP p) (
     have := desc_files s hi
     rw [hsplit] at this
     exact (List.pairwise_append.mp this).2.1
-  refine ⟨by rw [hsplit, List.filter_append, hprefil, List.nil_append], hdesc, ?_⟩
+  refine ⟨by rw [hsplit, List.filter_append, hprefil, List.nil_append], hdesc,
+    fun x hx => by rw [hsplit]; exact List.mem_append_right _ hx, ?_⟩
   have hsf : searchFiles s p =
       readEntries (keepMem s.conf p) p.scan (p.offset + p.limit) rem [] 0 none := by
     unfold searchFiles
@@ -186,7 +188,7 @@ theorem searchFiles_prefix (s : State) (p : Params) (hi : Inv s) (hv : ValidP p)
     have : searchFiles s p = ([], none) := by unfold searchFiles; rw [hseek]
     rw [this]; exact List.nil_prefix
   | some rem =>
-    obtain ⟨hfil, _, n, _, h1, _⟩ := searchFiles_some s p hi hv rem hseek
+    obtain ⟨hfil, _, _, n, _, h1, _⟩ := searchFiles_some s p hi hv rem hseek
     rw [h1, hfil]
     exact (List.take_prefix n rem).filter _
 
@@ -251,7 +253,7 @@ theorem search_offset (s : State) (p : Params) (hi : Inv s) (hv : ValidP p) (hsc
     (hc : CursorOK s p) :
     ∃ O, search s p = .ok (((vis s p).drop p.offset.toNat).take p.limit.toNat, O) := by
   obtain ⟨rem, hseek, _⟩ := seek_of_cursorOK s p hi hc
-  obtain ⟨hfil, _, n, _, _, _, _, _, hunl⟩ := searchFiles_some s p hi hv rem hseek
+  obtain ⟨hfil, _, _, n, _, _, _, _, _, hunl⟩ := searchFiles_some s p hi hv rem hseek
   have hs := search_eq s p hv
   dsimp only at hs
   have hE : (searchMemory s p ++ (searchFiles s p).1).take (p.offset + p.limit).toNat =
@@ -269,6 +271,16 @@ theorem search_offset (s : State) (p : Params) (hi : Inv s) (hv : ValidP p) (hsc
   rw [hE, sortDesc_of_desc _ hd, this] at hs
   exact ⟨_, hs⟩
 
+theorem mem_log_of_logRev (s : State) (x : Entry) (h : x ∈ logRev s) : x ∈ s.rot ++ s.cur ++ s.mem := by
+  simp only [logRev, memRev, filesRev, List.mem_append, List.mem_reverse] at h
+  simp only [List.mem_append]
+  rcases h with h1 | h1 | h1
+  · split at h1
+    · simp at h1
+    · exact Or.inr (List.mem_reverse.mp h1)
+  · exact Or.inl (Or.inr h1)
+  · exact Or.inl (Or.inl h1)
+
 theorem take_ne_nil {α} (l : List α) (n : Nat) (hn : 1 ≤ n) (hl : l ≠ []) : l.take n ≠ [] := by
   cases l with
   | nil => exact absurd rfl hl
@@ -283,12 +295,13 @@ theorem search_cursor (s : State) (p : Params) (hi : Inv s) (hv : ValidP p) (hof
     ∃ D O, search s p = .ok (D, O) ∧ (D.length : Int) ≤ p.limit ∧
       (O = none → D = vis s p) ∧
       (∀ c, O = some c → D = (vis s p).filter (fun e => decide (e.ts ≥ c)) ∧
-        (∀ t, p.olderThan = some t → (2 ≤ p.scan ∨ p.scan ≤ 0) → c < t)) := by
+        (∀ t, p.olderThan = some t → (2 ≤ p.scan ∨ p.scan ≤ 0) → c < t) ∧
+        (∃ e ∈ s.rot ++ s.cur ++ s.mem, e.ts = c)) := by
   obtain ⟨D, O, hs, hsub, hlen⟩ := search_sound s p hi hv
   refine ⟨D, O, hs, hlen, ?_⟩
   rw [search_eq s p hv] at hs
   obtain ⟨rem, hseek, htail⟩ := seek_of_cursorOK s p hi hc
-  obtain ⟨hfil, hdrem, n, hn, hF, hFlen, hnone, hsome, _⟩ := searchFiles_some s p hi hv rem hseek
+  obtain ⟨hfil, hdrem, hremsub, n, hn, hF, hFlen, hnone, hsome, _⟩ := searchFiles_some s p hi hv rem hseek
   have hlim := hv.lim
   -- the page before sorting is a prefix of the visible sequence
   have hpre : (searchMemory s p ++ (searchFiles s p).1) <+: vis s p := by
@@ -322,13 +335,14 @@ theorem search_cursor (s : State) (p : Params) (hi : Inv s) (hv : ValidP p) (hof
       subst hc'
       have hV : vis s p = ys ++ x :: S := by
         rw [← hS, hDx]; simp
-      constructor
+      have hx : x ∈ vis s p := by rw [hV]; simp
+      refine ⟨?_, ?_, ?_⟩
       · have := desc_filter_ge_prefix ys S x (hV ▸ desc_vis s p hi)
         rw [hV, this, ← hDx]
       · intro t hot _
-        have hx : x ∈ vis s p := by rw [hV]; simp
         have hk : keepMem s.conf p x = true := (List.mem_filter.mp hx).2
         exact keepMem_older s.conf p x t hot hk
+      · exact ⟨x, mem_log_of_logRev s x (List.mem_filter.mp hx).1, rfl⟩
   | none =>
     have hDnil : D = [] := List.getLast?_eq_none_iff.mp hgl
     rw [← hD] at hgl
@@ -364,7 +378,7 @@ theorem search_cursor (s : State) (p : Params) (hi : Inv s) (hv : ValidP p) (hof
         have : n = (n - 1) + 1 := by omega
         rw [this, List.take_add_one, he]
         simp
-      constructor
+      refine ⟨?_, ?_, ?_⟩
       · rw [hDnil, hV, List.filter_filter]
         have hcomm : rem.filter (fun a => decide (a.ts ≥ c) && keepMem s.conf p a) =
             (rem.filter (fun a => decide (a.ts ≥ c))).filter (keepMem s.conf p) := by
@@ -389,6 +403,13 @@ theorem search_cursor (s : State) (p : Params) (hi : Inv s) (hv : ValidP p) (hof
           exact List.mem_of_getElem? this
         have := htail t hot e hmem
         omega
+      · refine ⟨e, ?_, hts⟩
+        have : e ∈ filesRev s.rot s.cur := hremsub e (List.mem_of_getElem? he)
+        simp only [filesRev, List.mem_append, List.mem_reverse] at this
+        simp only [List.mem_append]
+        rcases this with h1 | h1
+        · exact Or.inl (Or.inr h1)
+        · exact Or.inl (Or.inl h1)
 
 
 end AGH.C07
